@@ -111,6 +111,14 @@ PROPS["C11"] = {
              "distinct = distinct (configuration, history); all count as non-trivial"),
     "trusted_base": CFG_TB, "assumptions": [],
 }
+PROPS["C12"] = {
+    "level": "proof", "harness": "C12", "driver": "C12", "shrink_field": None, "exhaustive": False,
+    "rule": ("cases = one child process per case, built with the Go race detector: (a) the five formats packaged concurrently from ONE parsed configuration, (b) every format twice from independently parsed configurations, (c) one format six times from independent configurations; "
+             "GOMAXPROCS in {2,16} (thorough {1,2,4,8,16}), several rounds with randomised start offsets, generated configurations that all contain a tree, per-format umasks, override blocks and entries with and without file_info. "
+             "Per goroutine: package bytes hash against the sequential result; per case: the race detector's reports. The model side: each packaging thread, run alone on the configuration's heap, writes only its own cells (premise of the interleaving theorem). "
+             "distinct = distinct (configuration, mode, formats, GOMAXPROCS); all count as non-trivial"),
+    "trusted_base": CFG_TB + ["Go race detector (ThreadSanitizer runtime) for the accesses the model does not cover: goroutines inside pgzip/zstd, the packager registry, package-level state"], "assumptions": [],
+}
 PROPS["C13"] = {
     "level": "proof", "harness": "C13", "driver": "C13", "shrink_field": None, "exhaustive": True,
     "rule": ("cases = for EVERY overridable leaf field found by reflection (62) x every format x {base set, unset} x {override set, unset}, with another format's block setting the same leaf (exhaustive matrix); "
